@@ -16,9 +16,10 @@ def run(ck):
         pass
     else:
         hs += [H('c06_table_n3', cap=7200, meaning='n<=3'), H('c06_table_leap1_n2', cap=7200, required=False, meaning='n<=2 with one leap-second record and a Fixed trailing rule'), H('c06_table_n1', cap=2400, meaning='n<=1')]
-    # the search's DST-rule arm in the quick tier: optional there (about 10 minutes on an idle machine; a timeout is recorded as
-    # "not covered this run", a FAILED verdict is replayed and reported like any other)
-    hs.append(H('c06_rulespec_search', cap=(760 if quick else 5400), required=False, meaning='DST-rule zones, all rules, searched year starting at a fixed instant (narrow): the real search over three abstract years of rule-day instants (contracts K1/K2/K4 from C04) against the C04 specification of the lookup (northern [S(k),E(k)), southern [S(k),E(k+1))); stale buffer; role F2 excluded'))
+    # the search's DST-rule arm against the C04 specification: 25 min under load (15 idle), hence thorough only for C06 (C05's twin runs
+    # in the quick tier as an optional, capped item)
+    if not quick:
+        hs.append(H('c06_rulespec_search', cap=5400, required=False, meaning='DST-rule zones, all rules, searched year starting at a fixed instant (narrow): the real search over three abstract years of rule-day instants (contracts K1/K2/K4 from C04) against the C04 specification of the lookup: reported gaps are real jumps, real jumps are reported, order, earliest/latest; stale buffer; role F2 excluded'))
     if not quick:
         hs.append(H('c06_rulespec_wide_search', cap=9000, required=False, meaning='same with the year anywhere in the supported range'))
         hs.append(H('c06_rule_abstract', cap=9000, required=False, meaning='DST-rule zones, ALL years and ALL rules: real search and real forward lookup over abstract rule-day instants constrained by the contracts K1-K4 (discharged in C04), interleaving pattern assumed, known-finding role F2 (tie years) excluded: same assertions as the table harnesses'))
